@@ -237,7 +237,16 @@ pub fn c11(out: &mut Out, thorough: bool) {
         }
     }
     let extra = positions(&mut rng, if thorough { 1500 } else { 160 });
-    ps.extend(extra.into_iter().skip(60));
+    // (the fixed corpus lines come first in `positions`; a quarter of them is enough here, the search is costly)
+    let mut nline = 0;
+    ps.extend(extra.into_iter().skip(60).filter(|t| {
+        if t.tag == "corpus-line" {
+            nline += 1;
+            nline % 4 == 0
+        } else {
+            true
+        }
+    }));
     mating_positions(&mut rng, if thorough { 300 } else { 40 }, &mut ps);
     // roots with exactly one or two legal moves (forced replies): the bookkeeping of the previous best
     // move across deepening passes has no other move to fall back on
@@ -564,7 +573,15 @@ pub fn c13(out: &mut Out, thorough: bool) {
             ps.push(Tagged { board: b, tag: "corpus" });
         }
     }
-    ps.extend(positions(&mut rng, if thorough { 1200 } else { 170 }).into_iter().skip(60));
+    let mut nline = 0;
+    ps.extend(positions(&mut rng, if thorough { 1200 } else { 170 }).into_iter().skip(60).filter(|t| {
+        if t.tag == "corpus-line" {
+            nline += 1;
+            nline % 4 == 0
+        } else {
+            true
+        }
+    }));
     mating_positions(&mut rng, if thorough { 200 } else { 20 }, &mut ps);
     // roots where the decisive move is quiet while captures are on offer as well (the root tries captures first)
     retro_mates(&mut rng, if thorough { 400 } else { 60 }, &mut ps);
